@@ -125,6 +125,8 @@ pub fn find_view(v: &[LinkView], conn_id: u64) -> Option<&LinkView> {
 /// One call of an uplink send primitive, as seen by the interceptor.
 #[derive(Clone, Debug)]
 pub struct WireSend {
+    /// Virtual time of the call.
+    pub t: u64,
     pub fd: i32,
     /// Sim path (uplink address) the socket belongs to; `None` if unknown.
     pub path: Option<usize>,
@@ -137,6 +139,7 @@ pub struct WireSend {
 
 #[derive(Clone, Debug)]
 pub struct ClientOut {
+    pub t: u64,
     /// "try_send_to", "send_to" or "instant" (the mirrored forwarding task).
     pub via: &'static str,
     pub bytes: Vec<u8>,
@@ -300,6 +303,10 @@ pub struct Seam {
     pub client_faults: Vec<ClientFault>,
     pub fired: Stats,
     pub binds: u64,
+    /// Engine W: conn ids are internal to the real loop; learned from creation order.
+    pub fd_conn: HashMap<i32, u64>,
+    pub path_conn: Vec<Option<u64>>,
+    pub last_bound: Option<(i32, usize)>,
 }
 
 #[derive(Clone, Debug)]
@@ -329,12 +336,13 @@ impl Seam {
         self.path_ip.push(ip);
         self.send_faults.push(Vec::new());
         self.bind_fail.push(false);
+        self.path_conn.push(None);
         p
     }
 }
 
-struct SimBinder {
-    seam: SeamHandle,
+pub struct SimBinder {
+    pub seam: SeamHandle,
 }
 
 /// `Rc<RefCell<Seam>>` behind a Send+Sync wrapper: the binder trait requires
@@ -367,6 +375,10 @@ impl UplinkBinder for SimBinder {
                 s.path_gen[p] += 1;
                 s.path_fd[p] = fd;
                 s.fd_path.insert(fd, p);
+                if let Some(id) = s.path_conn[p] {
+                    s.fd_conn.insert(fd, id);
+                }
+                s.last_bound = Some((fd, p));
                 false
             }
         });
@@ -389,7 +401,7 @@ fn kind_of(s: &str) -> std::io::ErrorKind {
     }
 }
 
-fn install_interceptors(seam: &SeamHandle) {
+pub fn install_interceptors(seam: &SeamHandle) {
     let s1 = seam.clone();
     net_hooks::set_uplink_interceptor(Some(Box::new(move |fd, call, bufs| {
         s1.with(|s| {
@@ -428,6 +440,7 @@ fn install_interceptors(seam: &SeamHandle) {
                 }
             }
             s.wire.push(WireSend {
+                t: srtla_core::utils::now_ms(),
                 fd,
                 path,
                 call,
@@ -469,6 +482,7 @@ fn install_interceptors(seam: &SeamHandle) {
                 }
             }
             s.client.push(ClientOut {
+                t: srtla_core::utils::now_ms(),
                 via: match call {
                     ClientCall::SendTo => "send_to",
                     ClientCall::TrySendTo => "try_send_to",
@@ -489,8 +503,11 @@ pub fn clear_thread_seams() {
     net_hooks::set_client_interceptor(None);
     net_hooks::set_yield_points(false);
     core_hooks::set_clock(None);
+    core_hooks::set_clock_fn(None);
     core_hooks::set_byte_source(None);
     sh::set_conn_id_source(None);
+    net_hooks::set_listener_source(None);
+    let _ = sh::take_uplink_channel();
 }
 
 #[derive(Debug, Clone, PartialEq, Eq, PartialOrd, Ord)]
@@ -1179,6 +1196,7 @@ impl<'p> Sim<'p> {
         while let Ok((_addr, pkt)) = self.world.instant_rx.try_recv() {
             self.seam.with(|s| {
                 s.client.push(ClientOut {
+                    t: srtla_core::utils::now_ms(),
                     via: "instant",
                     bytes: pkt.to_vec(),
                     result: Ok(pkt.len()),
